@@ -60,6 +60,15 @@ def units(ctx):
         us.append(("reach", PROPERTY, "Auer", None, 2, 2, mu, 120 if ctx.thorough else 60, 2 if ctx.thorough else 1))
     for mu in reach.truths(3, 2, True)[: (10 if ctx.thorough else 4)]:
         us.append(("reach", PROPERTY, "Auer", None, 2, 3, mu, 120 if ctx.thorough else 40, 1))
+    # model-guided search (checks/modelreach.py): the reference model explored with the FULL menus to a deeper
+    # deviation bound, bound to the code by replaying its traces on the real run_one_step()
+    for alg in ("PaVeBaGP-IH", "PartialGP-rect"):
+        for spec in [c for c in cs if cones.W_of(c).shape == (2, 2)] + [("W", ((1, 0), (-1, 2)), "unit")]:
+            W_ = cones.W_of(spec)
+            for mu in reach.truths(2, 2, True) + reach.gap_targeted_truths(W_, reach.eps_of()):
+                us.append(("mreach", PROPERTY, alg, spec, 2, 2, mu, 7, 3 if ctx.thorough else 2))
+            for mu in reach.truths(3, 2, True)[: (10 if ctx.thorough else 5)]:
+                us.append(("mreach", PROPERTY, alg, spec, 2, 3, mu, 7, 2 if ctx.thorough else 1))
     # real models, GP-generated histories (scripted observation offsets), contraction chosen so that runs end in a few dozen rounds
     for alg in ("PaVeBaGP-IH", "PaVeBaGP-DE", "PartialGP-rect", "PartialGP-ell", "PaVeBa", "Auer"):
         specs = [None] if alg == "Auer" else [("comp", 2), ("theta", 60), ("theta", 120)]
@@ -67,11 +76,16 @@ def units(ctx):
             for seed in ((ctx.seed, ctx.seed + 1) if ctx.thorough else (ctx.seed,)):
                 us.append(("realreach", PROPERTY, alg, spec, 4, {"contraction": 4.0, "max_rounds": 60}, 3 if ctx.thorough else 2, seed))
     # heavy units first (better balance)
-    us.sort(key=lambda u: (0 if u[0] == "realreach" else 1, 0 if u[5] == 3 else 1, 0 if u[2].endswith(("DE", "ell")) else 1))
+    us.sort(key=lambda u: (0 if u[0] == "realreach" else 1, 0 if u[5] == 3 else 1, 0 if u[2].endswith(("DE", "ell")) else 1, 0 if u[0] == "mreach" else 1))
     return us
 
 
 def run_unit(unit):
+    if unit[0] == "mreach":
+        from checks import modelreach
+        res = core.new_result()
+        modelreach.run_mreach(unit, res)
+        return res
     if unit[0] == "realreach":
         res = core.new_result()
         reach.run_real_reach(unit, res)
@@ -80,6 +94,9 @@ def run_unit(unit):
 
 
 def replay_case(case):
+    if case.get("mode") == "mreach":
+        from checks import modelreach
+        return modelreach.replay_case(case)
     if case.get("mode") == "realreach":
         res = core.new_result()
         u = list(case["unit"])
